@@ -145,6 +145,10 @@ func runSwitch(r *Run, concurrent bool) {
 			b.DialDelay = time.Duration(1+r.F.Pick(3000)) * time.Millisecond
 		case 11:
 			b.DialHang = true
+		case 4:
+			// accepts login (and configuration) but loads the world for longer than the
+			// request's deadline; answers JoinGame before the read timeout
+			b.JoinDelay = time.Duration(5500+r.F.Pick(4000)) * time.Millisecond
 		}
 		return b
 	}
@@ -175,6 +179,9 @@ func runSwitch(r *Run, concurrent bool) {
 
 	// does a dial with behaviour b end in a successful join?
 	okBeh := func(b backendBehavior, p int) bool {
+		if b.JoinDelay > 0 {
+			return false // the request gives up after 5 s
+		}
 		if b.DialRefuse || b.DialHang || b.KickAt != "" || b.ResetAt != "" {
 			if (b.KickAt == "config" || b.ResetAt == "config") && p < 764 {
 				return true // no config phase before 1.20.2
@@ -388,6 +395,7 @@ func runSwitch(r *Run, concurrent bool) {
 
 	// step invariant: at most one connection attempt in flight for the player
 	violated := false
+	var overlapSince time.Time
 	w.s.OnStep = func() {
 		if violated || !phaseBStarted {
 			return
@@ -402,7 +410,19 @@ func runSwitch(r *Run, concurrent bool) {
 				}
 			}
 		}
-		if inflight > 1 {
+		if inflight <= 1 {
+			overlapSince = time.Time{}
+			return
+		}
+		// The proxy reports a timed-out or kicked attempt to its requester first and closes
+		// that connection right afterwards (so the reason is not lost); the requester may dial
+		// the fallback in between. Two attempts count as simultaneous only if both are still
+		// open once simulated time has moved on.
+		if overlapSince.IsZero() {
+			overlapSince = time.Now()
+			return
+		}
+		if time.Since(overlapSince) >= 20*time.Millisecond {
 			violated = true
 			sig := "sequential"
 			if staggered {
@@ -472,6 +492,14 @@ func runSwitch(r *Run, concurrent bool) {
 		return
 	}
 
+	if seqVariant {
+		for _, q := range reqs {
+			if q.err == nil && !q.withInd && q.status == proxy.InProgressConnectionStatus {
+				r.Fail("reported-in-progress-with-nothing-in-flight", "sequential", "requests were issued strictly one after another, yet one to %s was answered 'connection in progress': %+v", q.target, reqs)
+				return
+			}
+		}
+	}
 	// Attribution: were two connection activities (API requests, kick fallback) in progress
 	// at the same time? (known race family, see DESIGN.md / known-findings.json)
 	overlap := false
